@@ -19,5 +19,5 @@ export CARGO_TARGET_DIR=/tmp/seeded-eval-target
 ( cd "$H" && CARGO_NET_OFFLINE=true cargo build --release --offline -p "$CRATE" --bin "$BIN" ) > "$H/build.log" 2>&1 || { echo "BUILD FAILED"; tail -30 "$H/build.log"; exit 2; }
 mkdir -p "$H/vd"; cp /verif/known_findings.json "$H/vd/"
 cd /verif
-VP_VERIF_DIR="$H/vd" VERIF_SEED="$SEED" "$CARGO_TARGET_DIR/release/$BIN" "$TIER" 2>&1 | grep -v "^proptest" | cut -c1-600 | grep -E "VIOLATION|KNOWN|signature=|^C[0-9]+ " | head -20
+VP_VERIF_DIR="$H/vd" VERIF_SEED="$SEED" "$CARGO_TARGET_DIR/release/$BIN" $TIER ${EXTRA:-} 2>&1 | grep -v "^proptest" | cut -c1-600 | grep -E "VIOLATION|KNOWN|signature=|^C[0-9]+ " | head -20
 echo "exit=${PIPESTATUS[0]}"
